@@ -873,6 +873,12 @@ class Exec:
                 return fn(self, obj)
             if (f"Record:{obj.cls}", name) in METHODS:
                 return BoundMethod(obj, name)
+            if getattr(obj, "by_contract", True) and self.repo.classdef(obj.cls) and self._assigned_somewhere(obj.cls, name):
+                # an object handed in by a contract (the frame of a task) stands for an instance the real constructor would have
+                # built: an attribute that the class assigns SOMEWHERE and the contract's object does not carry means the
+                # contract was written for another shape of the class (an attribute added since) - undecided, not an error of
+                # the program
+                raise Unsupported(f"the contract's {obj.cls.split('.')[-1]} object carries no '{name}', which the class assigns elsewhere (attribute added or renamed)")
             raise SymRaise("AttributeError", f"{obj.cls}.{name}")
         if isinstance(obj, ClassRef):
             ca = self.repo.class_attr(obj.qual, name)
@@ -890,6 +896,26 @@ class Exec:
         if isinstance(obj, SymRaise) and name == "args":
             return (obj.msg,)
         raise Unsupported(f"attribute {tag}.{name}")
+
+    def _assigned_somewhere(self, cqual, name):
+        """does any method of the class (or of a class it derives from, or of a class derived from it) assign self.<name>?"""
+        cache = self.__dict__.setdefault("_assigned_cache", {})
+        if (cqual, name) in cache:
+            return cache[(cqual, name)]
+        found = False
+        for cq in self.repo.mro(cqual):
+            cd = self.repo.classdef(cq)
+            if not cd:
+                continue
+            for n in ast.walk(cd[0]):
+                if isinstance(n, ast.Attribute) and isinstance(n.ctx, ast.Store) and n.attr == name and isinstance(n.value, ast.Name) \
+                        and n.value.id == "self":
+                    found = True
+                    break
+            if found:
+                break
+        cache[(cqual, name)] = found
+        return found
 
     def ev_Call(self, e, fr):
         # super().__init__(...)
